@@ -71,7 +71,7 @@ def cases(draw):
         params.setdefault(n, {})
     spec = Spec(T, states, choices, {k: functions[k] for k in d.perm(list(functions))}, consts, params)
     return {"spec": spec.to_json(), "seed_a": draw(st.integers(0, 2**31 - 1)), "seed_b": draw(st.integers(0, 2**31 - 1)),
-            "block": draw(st.sampled_from([1, 7, 50, 500]))}
+            "block": draw(st.sampled_from([1, 7, 50, 500])), "n_small": draw(st.integers(1, 40))}
 
 
 def strategy(tier):
@@ -236,6 +236,25 @@ def check(case):
                             msgs.append(f"{tag}: label of {s2} drawn in period {t} and label of {s1} drawn in period {t + 1} are not independent within a conditioning cell of {s1} (chi2={stat:.1f}, p={pv:.2e}): {tab.astype(int).tolist()}")
                             return
 
+    # small batches (1..40 agents): exact clauses only (zero-probability labels, seed laws)
+    n_small = case.get("n_small")
+    if not msgs and n_small:
+        init_s = {s: v[:: max(1, N // n_small)][:n_small] for s, v in init.items()}
+        ns = len(next(iter(init_s.values())))
+        ds1 = simcheck.simulate(fns, spec, init_s, case["seed_a"], vf_arr_list=sol)
+        ds2 = simcheck.simulate(fns, spec, init_s, case["seed_a"], vf_arr_list=sol)
+        ds3 = simcheck.simulate(fns, spec, init_s, case["seed_b"], vf_arr_list=sol)
+        cnt["small_batch_simulations"] = 3
+        if not ds1.equals(ds2):
+            msgs.append(f"two simulations of {ns} agents with the same seed give different frames")
+        elif not ds1.loc[0].equals(ds3.loc[0]):
+            msgs.append(f"changing the seed changes period-0 rows ({ns} agents)")
+        else:
+            from ..refmodel import Reference
+
+            m2, _ = simcheck.check_law_of_motion(spec, Reference(spec), ds1, init_s, ns)
+            if m2:
+                msgs.append(f"{ns} agents: " + m2[0])
     if not msgs:
         test_frame(dfa, f"seed {case['seed_a']}")
     if not msgs and dfb is not None:
@@ -246,7 +265,7 @@ def check(case):
     if msgs:
         out.status, out.reason = "violation", msgs[0]
         out.bucket = "draws:" + ("seed" if "seed" in msgs[0] and ("same seed" in msgs[0] or "changing the seed" in msgs[0]) else
-                                 "zero_probability" if "which has probability 0" in msgs[0] else
+                                 "zero_probability" if "which has probability 0" in msgs[0] or "drawn with probability 0" in msgs[0] else
                                  "frequency" if "binomial" in msgs[0] else "invalid_label" if "not labels of its grid" in msgs[0] else "independence")
         return out
     out.sample = {"n_periods": T, "states": {k: list(v) for k, v in spec.states.items()}, "choices": {k: list(v) for k, v in spec.choices.items()},
